@@ -171,6 +171,63 @@ fn ladder() -> Vec<f64> {
     v
 }
 
+/// Statically typed nestings (no type erasure): the harness's `Dyn` forwards only `update` and
+/// `last`, so anything a combinator obtains from its child through another trait method would be
+/// invisible behind it. Here the real generic structs are nested directly.
+fn static_nestings<T: Scalar>(st: &mut Stats, sink: &Sink) {
+    use sliding_features::pure_functions::{Add, Constant, Divide, Echo, Multiply, Subtract};
+    let vals = [0.1, 0.3, 1.0, 3.0, 9.0, -7.0, 0.0];
+    st.configs += 1;
+    macro_rules! nest {
+        ($outer:ident, $inner:ident, $op_o:tt, $op_i:tt, $name:expr) => {{
+            for (c1, c2) in [(0.1, 1.0), (3.0, 1.0), (0.7, 0.3)] {
+                // outer(inner(x, c1), c2) and outer(c2, inner(x, c1))
+                let mut left = $outer::new($inner::new(Echo::<T>::new(), Constant::new(T::of(c1))), Constant::new(T::of(c2)));
+                let mut right = $outer::new(Constant::new(T::of(c2)), $inner::new(Echo::<T>::new(), Constant::new(T::of(c1))));
+                let mut inner = $inner::new(Echo::<T>::new(), Constant::new(T::of(c1)));
+                for x in vals {
+                    let r = crate::explore::guard(|| {
+                        left.update(T::of(x));
+                        right.update(T::of(x));
+                        inner.update(T::of(x));
+                        (left.last(), right.last(), inner.last())
+                    });
+                    st.transitions += 3;
+                    st.oracle_evals += 2;
+                    let Ok((l, r, i)) = r else { continue };
+                    let i = i.expect("inner reports");
+                    let want_l = i $op_o T::of(c2);
+                    let want_r = T::of(c2) $op_o i;
+                    let _ = stringify!($op_i);
+                    for (got, want, shape) in [(l, want_l, "outer(inner(x,c1),c2)"), (r, want_r, "outer(c2,inner(x,c1))")] {
+                        if want.is_finite() && !crate::scalar::opt_same(got, Some(want)) {
+                            let spec = Spec::bin(Kind::$outer, Spec::bin(Kind::$inner, Spec::echo(), Spec::constant(c1)), Spec::constant(c2));
+                            sink.push(Violation::new("C14", &spec, "pointwise", T::NAME, &[x], format!("{} as {} with c1={}, c2={}: reports {} but applying the operation to the inner combinator's reported output {} gives {}", $name, shape, c1, c2, opt_key(got), i.key(), want.key())));
+                            return;
+                        }
+                    }
+                }
+            }
+        }};
+    }
+    nest!(Add, Multiply, +, *, "Add over Multiply");
+    nest!(Add, Divide, +, /, "Add over Divide");
+    nest!(Add, Subtract, +, -, "Add over Subtract");
+    nest!(Add, Add, +, +, "Add over Add");
+    nest!(Subtract, Multiply, -, *, "Subtract over Multiply");
+    nest!(Subtract, Divide, -, /, "Subtract over Divide");
+    nest!(Subtract, Add, -, +, "Subtract over Add");
+    nest!(Subtract, Subtract, -, -, "Subtract over Subtract");
+    nest!(Multiply, Add, *, +, "Multiply over Add");
+    nest!(Multiply, Divide, *, /, "Multiply over Divide");
+    nest!(Multiply, Subtract, *, -, "Multiply over Subtract");
+    nest!(Multiply, Multiply, *, *, "Multiply over Multiply");
+    nest!(Divide, Add, /, +, "Divide over Add");
+    nest!(Divide, Multiply, /, *, "Divide over Multiply");
+    nest!(Divide, Subtract, /, -, "Divide over Subtract");
+    nest!(Divide, Divide, /, /, "Divide over Divide");
+}
+
 pub fn run(ctx: &Ctx) -> CheckOutput {
     let quick = ctx.tier == Tier::Quick;
     let depth = if quick { 6 } else { 9 };
@@ -213,6 +270,13 @@ pub fn run(ctx: &Ctx) -> CheckOutput {
             }
         }
     }
+    jobs.push(Box::new(move || {
+        let mut st = Stats::default();
+        let sink = Sink::new();
+        static_nestings::<f32>(&mut st, &sink);
+        static_nestings::<f64>(&mut st, &sink);
+        JobOut { stats: st, viols: sink.take(), samples: vec![json!({"clause":"statically typed nestings of the four arithmetic combinators, f32 and f64"})] }
+    }));
     // the stateless functions over a ladder of magnitudes (depth 2: they have no memory to fill)
     {
         use Kind::*;
